@@ -214,6 +214,27 @@ PROPS["C11"] = {
     "thorough": {"scale": 8, "shards": 16, "timeout": 1500},
 }
 
+PROPS["C12"] = {
+    "pkg": "c12",
+    "technique": "property-based testing with byte-equality, differential (the net.Addr's own AddrPort, net.IPNet.Contains on probe addresses) and sortedness+permutation oracles over generated net.IP / IPMask / net.Addr / []netip.Addr values incl. malformed ones",
+    "level_text": ("Generated-input search: IPToAddr / IPToAddrNoMapped / NetAddrToAddrPort must return the same bytes, zone and port in the requested (unmapped) "
+                   "family and reject non-addresses; a successful IPNetToPrefix(NoMapped) implies a non-empty contiguous mask, an unchanged address and a prefix "
+                   "length equal to the mask's ones, and - when the mask is as long as the converted address - agreement of Prefix.Contains with IPNet.Contains on "
+                   "the base, every single-bit flip of it, both block boundaries and their neighbours and random addresses; slices.SortFunc with PreferIPv4/6 "
+                   "must give a permutation ordered [preferred family ascending, other family ascending, invalid]. Exploration."),
+    "level_note": "Trusted: net.IPNet.Contains, net/netip and the net.Addr implementations' own AddrPort methods as references.",
+    "rule": ("net.IP: nil, 4, 16, v4-mapped 16 and other lengths 0-20; masks: CIDR masks of both lengths and every ones count, non-contiguous, nil, empty, wrong "
+             "length; both families and the NoMapped variants; TCP/UDP/IP/Unix/IPNet/custom/typed-nil net.Addr; []netip.Addr of 0-30 with duplicates, zero, zoned, "
+             "4in6. Non-trivial: a conversion succeeded (addresses); subnet accepted with 0 < ones < bit length and membership compared; sort input with at "
+             "least two of {IPv4, IPv6, invalid}. distinct = distinct case."),
+    "assumptions": ["a 4-byte input under the IPv6 family may be accepted as its mapped form (net.IP treats both as the same address): only 'if accepted then right' is asserted",
+                    "a v4-mapped net.IP converted under the IPv6 family is excluded from the membership comparison (net.IPNet itself switches to IPv4 semantics); counted as a class",
+                    "zones cannot survive an unmap (netip cannot attach a zone to IPv4)"],
+    "expect_classes": {"net:membership-checked-proper-subnet": 0.1, "net:rejected-bad-mask": 0.05},
+    "quick": {"scale": 4, "shards": 1, "timeout": 300},
+    "thorough": {"scale": 10, "shards": 16, "timeout": 1500},
+}
+
 ALL_IDS = ["C%02d" % i for i in range(1, 21)]
 NOT_APPLICABLE = [
     {"property_id": pid, "reason": "check not built yet in this revision of the harness (work in progress; see DESIGN.md section 9)"}
